@@ -184,6 +184,7 @@ type Exec struct {
 	dry      bool
 	dryYield bool // the dry run of the loop body passed a blocking point
 	dryNested bool // the dry run of the loop body reached a nested loop
+	stopRegs  []map[string]ssa.Value // per path that reached the stop site: the SSA value each local denotes there
 	dryLoop  *loopInfo
 	dryMods  map[string]bool
 	dryGMods map[string]bool
@@ -339,7 +340,101 @@ func (ex *Exec) run() (err error) {
 			ex.fail("path limit %d exceeded (outside reach)", ex.maxPaths)
 		}
 	}
+	ex.checkFlows()
 	return nil
+}
+
+// checkFlows decides the `flows T.F <- x into f` clauses on the SSA of the
+// function (exact: SSA registers are not aliased): there is exactly one
+// struct literal of type T, its field F is stored exactly once, from the SSA
+// value the local x denotes on every path that reached the stop site, and the
+// literal's address is an argument of the only call of f in the function.
+func (ex *Exec) checkFlows() {
+	if ex.con == nil || len(ex.con.Flows) == 0 {
+		return
+	}
+	if ex.con.StopAt != "" && len(ex.stopRegs) == 0 {
+		ex.fail("stop site %s was never reached", ex.con.StopAt)
+	}
+	for _, fl := range ex.con.Flows {
+		name := fmt.Sprintf("%s#flow.%s.%s", ex.key, fl.Type, fl.Field)
+		ok, why := ex.flowHolds(fl)
+		o := &Obligation{Name: name, Kind: "flow", Fn: ex.key, Tags: fl.Tags, Pos: ex.pos(ex.fn.Pos()),
+			Goal: TTrue, Solver: "syntactic", Result: "unsat", Note: fmt.Sprintf("%s.%s <- %s into %s", fl.Type, fl.Field, fl.Local, fl.Into)}
+		if !ok {
+			o.Goal, o.Result, o.Raw = TFalse, "sat", why
+			o.Note += ": " + why
+		}
+		ex.obls = append(ex.obls, o)
+	}
+}
+
+func (ex *Exec) flowHolds(fl Flow) (bool, string) {
+	var allocs []*ssa.Alloc
+	var intoCalls []ssa.CallInstruction
+	for _, b := range ex.fn.Blocks {
+		for _, in := range b.Instrs {
+			if a, ok := in.(*ssa.Alloc); ok {
+				if n, ok := a.Type().(*types.Pointer).Elem().(*types.Named); ok && n.Obj().Name() == fl.Type {
+					allocs = append(allocs, a)
+				}
+			}
+			if ci, ok := in.(ssa.CallInstruction); ok && calleeName(ci.Common()) == fl.Into {
+				intoCalls = append(intoCalls, ci)
+			}
+		}
+	}
+	if len(allocs) != 1 {
+		return false, fmt.Sprintf("%d struct literals of type %s (expected one)", len(allocs), fl.Type)
+	}
+	if len(intoCalls) != 1 {
+		return false, fmt.Sprintf("%d calls of %s (expected one)", len(intoCalls), fl.Into)
+	}
+	a := allocs[0]
+	passed := false
+	for _, arg := range intoCalls[0].Common().Args {
+		if arg == ssa.Value(a) {
+			passed = true
+		}
+	}
+	if !passed {
+		return false, fmt.Sprintf("the %s literal is not an argument of %s", fl.Type, fl.Into)
+	}
+	st := a.Type().(*types.Pointer).Elem().Underlying().(*types.Struct)
+	var stores []*ssa.Store
+	for _, ref := range *a.Referrers() {
+		fa, ok := ref.(*ssa.FieldAddr)
+		if !ok {
+			if _, isCall := ref.(ssa.CallInstruction); isCall {
+				continue
+			}
+			if _, isDbg := ref.(*ssa.DebugRef); isDbg {
+				continue
+			}
+			return false, fmt.Sprintf("the %s literal escapes through %T", fl.Type, ref)
+		}
+		if st.Field(fa.Field).Name() != fl.Field {
+			continue
+		}
+		for _, r2 := range *fa.Referrers() {
+			if sto, ok := r2.(*ssa.Store); ok && sto.Addr == ssa.Value(fa) {
+				stores = append(stores, sto)
+			}
+		}
+	}
+	if len(stores) != 1 {
+		return false, fmt.Sprintf("%d stores to %s.%s (expected one)", len(stores), fl.Type, fl.Field)
+	}
+	for _, regs := range ex.stopRegs {
+		v, ok := regs[fl.Local]
+		if !ok {
+			return false, fmt.Sprintf("local %s is not defined at the stop site on some path", fl.Local)
+		}
+		if v != stores[0].Val {
+			return false, fmt.Sprintf("%s.%s is initialised from %s, not from the value of %s checked at the stop site", fl.Type, fl.Field, stores[0].Val.Name(), fl.Local)
+		}
+	}
+	return true, ""
 }
 
 func (ex *Exec) runState(s *State) {
@@ -411,7 +506,7 @@ func (ex *Exec) step(s *State, instr ssa.Instruction) []*State {
 				if fr.Names == nil {
 					fr.Names = map[string]namedVal{}
 				}
-				fr.Names[id.Name] = namedVal{v, in.X.Type()}
+				fr.Names[id.Name] = namedVal{v, in.X.Type(), in.X}
 			}
 		}
 		fr.Idx++
@@ -437,6 +532,13 @@ func (ex *Exec) step(s *State, instr ssa.Instruction) []*State {
 			vals[p] = ex.val(s, p.Edges[idx])
 		}
 		for p, v := range vals {
+			if p.Comment != "" && fr.IsRoot {
+				// from here on the local denotes the merged value
+				if fr.Names == nil {
+					fr.Names = map[string]namedVal{}
+				}
+				fr.Names[p.Comment] = namedVal{v, p.Type(), p}
+			}
 			fr.Regs[p] = v
 		}
 		fr.Idx = j
